@@ -40,7 +40,20 @@ def _plan(draw, max_rows):
         cols.append({"name": f"p{j}", "kind": kind, "vals": draw(gen.values(kind, n))})
     order = draw(st.permutations(range(len(cols))))
     keys = draw(st.permutations(keys))
-    return {"frame": {"n": n, "cols": [cols[i] for i in order]}, "keys": [list(k) for k in keys]}
+    plan = {"frame": {"n": n, "cols": [cols[i] for i in order]}, "keys": [list(k) for k in keys]}
+    if n and draw(st.integers(0, 2)) == 0:
+        # history: sort, edit key cells of the same frame in place, sort again (anything cached about a column is stale)
+        edits = []
+        for _ in range(draw(st.integers(1, 2))):
+            c = cols[draw(st.integers(0, nk - 1))]
+            if c["kind"] in ("u", "y"):
+                continue                     # fixed-width dtypes truncate longer values on assignment
+            v = draw(gen.value(c["kind"], "pool"))
+            if c["kind"] == "s" and draw(st.booleans()):
+                v = max(c["vals"], key=len) + draw(st.sampled_from(["z", "zzzz", "a" * 50]))
+            edits.append([c["name"], draw(st.integers(0, n - 1)), v])
+        plan["edits"] = edits
+    return plan
 
 
 def strategy(tier):
@@ -74,20 +87,36 @@ def nontrivial(plan):
 
 def check(plan, ctx):
     data = build.frame(plan["frame"])
+    _check_sort(plan, data, ctx)
+    if plan.get("edits"):
+        fp = {"n": plan["frame"]["n"], "cols": [dict(c, vals=list(c["vals"])) for c in plan["frame"]["cols"]]}
+        for name, row, v in plan["edits"]:
+            c = next(c for c in fp["cols"] if c["name"] == name)
+            c["vals"][row] = v
+            data[name][row] = build.np_array(c["kind"], [v])[0]
+        ctx.cls("sorted_again_after_in_place_edit")
+        _check_sort({"frame": fp, "keys": plan["keys"]}, data, ctx, phase="after an in-place edit of the sorted frame: ")
+
+
+def _check_sort(plan, data, ctx, phase=""):
     src = build.table(data)
+    want = {c["name"]: [build.pcell(c["kind"], v) for v in c["vals"]] for c in plan["frame"]["cols"]}
+    for cn, cells_ in want.items():
+        if not all(build.same_cell(a, b) for a, b in zip(src[cn][1], cells_)):
+            raise RuntimeError(f"builder/edit mismatch in column {cn}")
     before = build.snap_frame(data)
     kc = _keycols(plan)
     n = plan["frame"]["n"]
     kwargs = {k: d for k, d in plan["keys"]}
-    out = ctx.call("sort", lambda: data.sort(**kwargs))
-    rids = build.check_whole_rows("sort", out, src)
+    out = ctx.call(phase + "sort", lambda: data.sort(**kwargs))
+    rids = build.check_whole_rows(phase + "sort", out, src)
     if sorted(rids) != list(range(n)):
-        raise Violation("sort is not a permutation of the rows", rids=rids, nrow=n)
+        raise Violation(phase + "sort is not a permutation of the rows", rids=rids, nrow=n)
     cols = [[build.pcell(c["kind"], v) for v in c["vals"]] for c, _ in kc]
     dirs = [d for _, d in kc]
     orders = model.row_orders(cols, dirs)
     if rids not in orders:
-        raise Violation("row order differs from every admissible stable key order", got=rids,
+        raise Violation(phase + "row order differs from every admissible stable key order", got=rids,
                         admissible=orders, keys=plan["keys"], keycells=cols)
     if build.snap_frame(data) != before:
         raise Violation("sort changed its receiver")
